@@ -1402,6 +1402,23 @@ class AxisInterp:
                       'read changes the table (use .get)')
             return TOP
         if base.k == 'dict':
+            if isinstance(base.c, tuple) and base.c and all(
+                    isinstance(i, tuple) and len(i) == 2 and
+                    isinstance(i[1], V) for i in base.c):
+                # a literal {'observation': ..., 'sample': ...}
+                d = dict(base.c)
+                kv = self.ev(sl, env)
+                key = const_str(sl) or (
+                    NAMEAX.get(kv.ax) if kv.k == 'axis' and
+                    kv.ax in (O, S) else None)
+                if key in d:
+                    return d[key]
+                vals = list(d.values())
+                if all(v.k == vals[0].k and v.lay == vals[0].lay
+                       for v in vals):
+                    return vals[0] if all(
+                        v.ax == vals[0].ax for v in vals) \
+                        else vals[0].with_(ax=None)
             return base.el or TOP
         if base.k == 'table':
             if isinstance(sl, ast.Tuple) and len(sl.elts) == 2:
@@ -1551,6 +1568,18 @@ class AxisInterp:
             if v.k == 'tuple' and v.c == 'seq':
                 return v
             return TOP if v.k not in ('matrix',) else v
+        if name in ('np.intersect1d', 'np.union1d', 'np.unique',
+                    'np.setdiff1d', 'np.sort', 'intersect1d', 'union1d',
+                    'unique', 'setdiff1d') and e.args:
+            # sorted set operations: the elements of the first operand in a
+            # re-computed order
+            vs = [self.ev(a, env) for a in e.args]
+            for kw in e.keywords:
+                self.ev(kw.value, env)
+            v = vs[0]
+            if v.k in ('ids', 'list', 'order'):
+                return v.with_(fresh=True, lay=('new',))
+            return TOP
         if name in ('set', 'list', 'dict') and not e.args:
             return V('list', el=None)
         if name in ('sorted', 'list', 'set', 'tuple', 'iter') and e.args:
@@ -2146,6 +2175,25 @@ class AxisInterp:
                           'ids of axis variable %s are ordered along axis '
                           'variable %s' % (order.c[1], an.id))
             self.id_check(e, order, ax, 'sort_order(order, axis)')
+            if self.qual == 'Table.align_to' and order is not None:
+                # contract of align_to: along every aligned axis the result
+                # follows the order of the table it is aligned to
+                ol_ = order.lay
+                if order.k == 'ids' and ol_ and ol_[0] == 'tbl' and \
+                        not str(ol_[1]).startswith('self'):
+                    self.sink('ORDER', e, 'align-order', 'ok',
+                              'ordered by the ids of `%s` as stored' % ol_[1])
+                elif order.k == 'ids' and ol_ and (
+                        ol_[0] in ('new', 'nat') or
+                        ol_[0] == 'tbl' and str(ol_[1]).startswith('self')):
+                    self.sink('ORDER', e, 'align-order', 'bad',
+                              'the aligned axis is put in %s order, not in '
+                              'the order of the other table\'s ids'
+                              % ('a re-computed (sorted / set)'
+                                 if ol_[0] != 'tbl' else 'the receiver\'s'))
+                else:
+                    self.sink('ORDER', e, 'align-order', 'unknown',
+                              'order of the target ids not resolved')
             lay = None
             if ax in (O, S):
                 ol = order.lay if order is not None and order.lay and \
